@@ -148,7 +148,7 @@ theorem hashLaw_witness (ih : Int → Int) : ∃ e : HashExt R (Int × Int × (N
 section examples
 /-- externals over ℤ: exact comparison; a "hash" that sees the qubits of the frozenset and the rounded real part -/
 def kZ : Scal Int := ⟨0, 0, 0, 0, id⟩
-def xZ : TranslatedPauli.Ext Int := ⟨fun a b => a == b, fun a b => a == b, fun _ _ => none, id⟩
+def xZ : TranslatedPauli.Ext Int := ⟨fun a b => a == b, fun a b => a == b, fun _ _ => none, fun a b => a == b, id⟩
 def hZ (t : Int × Int × FrozenItems Nat TranslatedPauli.Letter) : List Nat := t.2.2.map (·.1)
 
 -- a two-term sum and its reordering (dicts rebuilt in another order): `==` is True …
